@@ -5,7 +5,7 @@
    every argument in the property's domain the result is shown to be the same as with R_ops, for EVERY p: no such
    operation is executed on the path taken (or its result is never used). *)
 From Coq Require Import Reals Lra Lia List ZArith Bool.
-From LibaV Require Import Common.NumOps Common.ROps C11.MathDefs C11.HypProofs.
+From LibaV Require Import Common.NumOps Common.ROps C11.MathDefs C11.HypProofs C11.Expm1Proofs C11.ListProofs.
 Import ListNotations.
 Local Open Scope R_scope.
 
@@ -134,3 +134,40 @@ Theorem pol2cart_defined p r t : real_pol2cart (Rp_ops p) r t = real_pol2cart R_
 Proof. reflexivity. Qed.
 Theorem sph2cart_defined p r t a : real_sph2cart (Rp_ops p) r t a = real_sph2cart R_ops r t a.
 Proof. reflexivity. Qed.
+
+Theorem expm1_defined p x : real_expm1 (Rp_ops p) x = real_expm1 R_ops x.
+Proof.
+  unfold real_expm1. rewrite isnan_p, isinf_p, isnan_R, isinf_R, ch_p, c_half_val. up p.
+  destruct (Rltb_spec x (- / 2)); destruct (Rltb_spec (/ 2) x); cbn [orb]; try reflexivity.
+  unfold expm1_rat.
+  change (polevl (Rp_ops p) (expm1_P (Rp_ops p))) with (polevl R_ops (expm1_P R_ops)).
+  change (polevl (Rp_ops p) (expm1_Q (Rp_ops p))) with (polevl R_ops (expm1_Q R_ops)).
+  up p. rewrite Rp_div_ok; [reflexivity|].
+  pose proof (expm1_rat_divisor x). lra.
+Qed.
+
+(* vector norm: the scan never stops early over R, every division is by the largest magnitude and only when it is > 0 *)
+Theorem norm_cells_defined p (l : list R) : norm_cells (Rp_ops p) l = norm_cells R_ops l.
+Proof.
+  unfold norm_cells.
+  change (norm_scan (Rp_ops p) l (ofZ (Rp_ops p) 0)) with (norm_scan R_ops l (ofZ R_ops 0)).
+  rewrite norm_scan_R. cbn [ofZ R_ops]. set (w := maxabs l 0). up p.
+  destruct (Rleb_spec w 0); [reflexivity|]. assert (Hw : w <> 0) by lra.
+  assert (E : forall l' a, fold_left (fun s q => s + Rp_div p q w * Rp_div p q w) l' a = fold_left (fun s q => s + q / w * (q / w)) l' a).
+  { induction l' as [|h t IH]; intros a; [reflexivity|]. cbn [fold_left]. rewrite !Rp_div_ok by auto. apply IH. }
+  rewrite E. rewrite Rp_sqrt_ok; [reflexivity|].
+  rewrite scaled_sumsq by auto. pose proof (sumsq_nonneg l). apply Rmult_le_pos; [lra|]. apply Rlt_le, Rinv_0_lt_compat. nra.
+Qed.
+Theorem norm_defined p n l c : real_norm_ (Rp_ops p) n l c = real_norm_ R_ops n l c /\ real_norm (Rp_ops p) n l = real_norm R_ops n l.
+Proof.
+  unfold real_norm_, real_norm. split.
+  - destruct (c =? 0)%nat; [reflexivity|]. destruct (strided n l 0 c); [cbn [option_map]; rewrite norm_cells_defined|]; reflexivity.
+  - destruct (strided n l 0 1); [cbn [option_map]; rewrite norm_cells_defined|]; reflexivity.
+Qed.
+(* mean: 1/(a_real)n is a division by zero only for n = 0, and then no cell is visited and the quotient is never used *)
+Theorem mean_defined p n l c : real_mean_ (Rp_ops p) n l c = real_mean_ R_ops n l c.
+Proof.
+  unfold real_mean_, red. destruct n as [|n].
+  - cbn [strided option_map fold_left]. reflexivity.
+  - up p. rewrite Rp_div_ok; [reflexivity|]. apply not_0_IZR. lia.
+Qed.
